@@ -144,3 +144,51 @@ Example C11_arith_examples :
   chunk_end 64 (2 ^ 28) (2 ^ 32 + 5) 16 = 2 ^ 32 + 5 /\
   get_chunk_size 1 (2 ^ 64 - 1) = Some (2 ^ 61) /\ chunk_end 64 (2 ^ 61) (2 ^ 64 - 1) 7 = 2 ^ 64 - 1.
 Proof. vm_compute. repeat split; reflexivity. Qed.
+
+(* ================================================================== TRACE tie of the real set_value
+   harness/c11_trace.cpp runs the real bulk_receiver::set_value (chunk computation, init_queue, spawn
+   loop with queue.empty() / inline finish() / register_work, the local worker's part, every spawned
+   task_function, the tasks_remaining countdown, the completion) on a real pool and logs the order of
+   its atomic accesses; [lock_trace cf sched (binit cf) []] replays that order: [fst] = for every
+   logged event the site at which the model has the acting thread parked (compared with the logged
+   site: the event is enabled), [snd] = the state reached (calls, exits, thrown, order of the
+   decrements, counter, completion — compared with the log). *)
+From Pika Require Import Proofs.BulkTraceProofs.
+
+(* the acceptor only moves along [bstep]: the state reached on any schedule is a state of [brun] *)
+Theorem C11_trace_acceptor_sound : forall cf sched,
+  exists s, snd (lock_trace cf sched (binit cf) []) = brun cf s.
+Proof. exact trace_acceptor_sound. Qed.
+Print Assumptions C11_trace_acceptor_sound.
+
+(* it reports one site per logged event *)
+Theorem C11_trace_one_site_per_event : forall cf sched c acc,
+  length (fst (lock_trace cf sched c acc)) = (length sched + length acc)%nat.
+Proof. exact lock_trace_sites_length. Qed.
+Print Assumptions C11_trace_one_site_per_event.
+
+(* so in the state reached by an accepted trace: each index at most once, below n, with the
+   predecessor's values; at most one completion; the completion after the last call has returned *)
+Theorem C11_trace_accepted_props : forall cf sched, guard cf ->
+  let g := fst (snd (lock_trace cf sched (binit cf) [])) in
+  NoDup (map fst (calls g)) /\
+  (forall j v, In (j, v) (calls g) -> j < cn cf /\ v = Some (cvals cf)) /\
+  (length (sigs g) <= 1)%nat /\
+  (forall s, In s (sigs g) ->
+     sg_calls s = length (calls g) /\ sg_exits s = length (exits g) /\ length (calls g) = length (exits g)).
+Proof. exact trace_accepted_props. Qed.
+Print Assumptions C11_trace_accepted_props.
+
+(* a trace logged on the real 2-worker pool (harness case 2-13 of seed 3): bulk(3, f), f always throws,
+   set_value on worker 0.  Sites: 11 set_value, 9 spawn loop (queue 1 non-empty: register_work), then the
+   local part: queue LOAD 1, CAS 2, f entry 3 / exit 4, exchange 6, store 7, decrement 5; the spawned
+   task: start 10, LOAD, CAS, f, exchange (flag already set: no store), decrement -> set_error(exception of index 0) *)
+Definition tr_cf : cfg := {| cW := 2; cn := 3; cbits := 32; clocal := 0; cthrows := fun _ => true; cvals := 7 |}.
+Definition tr_sched : list nat := [0;0;0;0;0;0;0;0;0;1;1;1;1;1;1;1]%nat.
+Example C11_trace_example :
+  let r := lock_trace tr_cf tr_sched (binit tr_cf) [] in
+  let g := fst (snd r) in
+  fst r = [11;9;1;2;3;4;6;7;5;10;1;2;3;4;6;5]%nat /\
+  rev (map fst (calls g)) = [0; 1] /\ rev (exits g) = [0; 1] /\ rev (thrown g) = [0; 1] /\
+  map sg (sigs g) = [SError (Some 0)] /\ rev (fin g) = [0; 1]%nat /\ remaining g = 0 /\ guard tr_cf.
+Proof. vm_compute. repeat split; try discriminate; try lia; auto. Qed.
